@@ -18,6 +18,6 @@ def handle (line : String) : String :=
   else if line.startsWith "MID." then NodeLine.judgeMid line
   else if line.startsWith "OVL." then NodeLine.judgeOvl line
   else NodeLine.judge ⟨Dtn7.Gen.C05.seqAssignedFirst, Dtn7.Gen.C05.sendBundleSkipsStored, Dtn7.Gen.C05.expiryCountsFromNow, Dtn7.Gen.C05.dtlsrReportsFailure,
-    Dtn7.Gen.C05.dispatchingHoldsRefused, Dtn7.Gen.C05.epidemicGateServesDirect⟩ c05Fail line
+    Dtn7.Gen.C05.dispatchingHoldsRefused, Dtn7.Gen.C05.epidemicGateServesDirect⟩ c05FailX line
 
 def main : IO Unit := Driver.run handle
